@@ -1,5 +1,5 @@
 (* C03 — upload integrity (read path): served bytes are exact whatever the read cache does. *)
-From RainV Require Import Lib Geometry SectionIO Cache CacheProofs Wire WireProofs.
+From RainV Require Import Lib Geometry SectionIO Cache CacheProofs Wire WireProofs Admission AdmissionProofs.
 
 (* for every piece content, every read-cache block size rs > 0 and every request position
    inside the piece -- aligned or not to 16 KiB blocks or to rs -- the bytes handed to the
@@ -29,3 +29,17 @@ Theorem C03_cache_bounded : forall mx, 0 <= mx -> forall ops : list (Z * Z), For
   CInv c /\ 0 <= ctotal c <= mx.
 Proof. exact cache_bounded. Qed.
 Print Assumptions C03_cache_bounded.
+
+(* request admission: data only for in-bounds, non-empty, <= 16 KiB requests of pieces the client
+   has; while choking only for allowed-fast pieces of fast-extension peers *)
+Theorem C03_served_only_if : forall PL total np done fast idx b len cc af,
+  serve PL total np done fast idx b len cc af = DPiece ->
+  idx < np /\ done idx = true /\ 0 < len <= 16384 /\ b + len <= piece_len PL total np idx /\
+  (cc = false \/ (fast = true /\ af = true)) \/ len < 0.
+Proof. exact served_only_if. Qed.
+Print Assumptions C03_served_only_if.
+
+Theorem C03_no_wraparound : forall begin len plen, 0 <= begin < two32a -> 0 <= len < two32a -> 0 <= plen < two32a ->
+  valid_request begin len plen = true -> begin < plen /\ begin + len <= plen /\ len <> 0.
+Proof. exact no_wraparound. Qed.
+Print Assumptions C03_no_wraparound.
